@@ -47,7 +47,7 @@ META = dict(
           "override:VariableCovarianceGaussianEnergy", "override:Operator(generic)",
           "ConstCollector.add", "ConstCollector.mult", "sum_same_target_key"],
     quick=dict(cases=240, workers=6, budget_s=75),
-    thorough=dict(cases=10000, workers=16, budget_s=780),
+    thorough=dict(cases=8000, workers=16, budget_s=780),
     design_ref="DESIGN.md §5 C04",
     level_text=("random programs x all constant-key subsets, compared entry-wise against jax "
                 "autodiff of an independent mirror; exploration of a bounded grammar"),
@@ -227,7 +227,7 @@ def case(ck, i):
     dom = mr.input_domain(I, prog)
     if F.domain is not dom:
         ck.note(dict(prog=prog), nontrivial=False, klass="domain")
-        ck.violation("domain:" + prog["nodes"][-1][0], "operator domain is not the union of the "
+        ck.violation("domain:" + mr.first_wrong_domain(I, prog, ops), "operator domain is not the union of the "
                      "domains of its parts (C03 mechanism)", got=str(F.domain), want=str(dom))
         return
     xf = mr.np_to_field(I, dom, x)
